@@ -578,6 +578,11 @@ class Instance:
         """current value (bit pattern) of a net / variable of this instance"""
         if name in self.memo: return self.memo[name]
         if name in self.busy:
+            key = self.path + '.' + name
+            if key in self.d.state_terms:
+                # a variable of a combinational process that is not assigned on every path: inferred latch, previous value
+                self.d.latches = getattr(self.d, 'latches', set()) | {key}
+                return self.d.state_terms[key]
             raise VError('combinational cycle through %s.%s' % (self.path, name))
         self.busy.add(name)
         try:
@@ -807,9 +812,13 @@ class Instance:
             eb = dict(env); nb2 = dict(nb)
             if st[3]: self._exec(st[3], eb, nb2, ir.band_(guard, ir.not_(c)), assigned, blocking_only)
             for n in set(ea) | set(eb):
+                if n in ea and n in eb:
+                    env[n] = ir.ite(c, ea[n], eb[n]); continue
                 cur = env[n] if n in env else self.value(n)
                 env[n] = ir.ite(c, ea.get(n, cur), eb.get(n, cur))
             for n in set(na) | set(nb2):
+                if n in na and n in nb2:
+                    nb[n] = ir.ite(c, na[n], nb2[n]); continue
                 cur = nb[n] if n in nb else (env[n] if n in env else self.value(n))
                 nb[n] = ir.ite(c, na.get(n, cur), nb2.get(n, cur))
         elif k == 'case':
